@@ -256,6 +256,28 @@ def twotable_cases():
     return [dict(c, cds=ALL_CDS) for c in _twotable(gff_feats, adds, qs)]
 
 
+def subset_cases():
+    """subset() argument handling, exhaustive over a small set: start/stop in {None, 0, k} x allow_partial x one
+    falsy-or-plain filter, on a two-table db holding rows in both tables and on a one-table db; after the subset
+    every record is listed and three windows are asked"""
+    base = twotable_cases()
+    two, one = base[1], base[3]
+    allq = dict(biotype=None, seqid=None, name=None, strand=None, attrs=None, on_aln=None, start=None, stop=None, partial=False)
+    after = [allq, dict(allq, start=0, stop=3, partial=True), dict(allq, start=0), dict(allq, stop=0), dict(allq, on_aln=False)]
+    out = []
+    for src in (two, one):
+        for a in (None, 0, 2):
+            for b in (None, 0, 3, 6):
+                for p in (True, False):
+                    for f in (dict(), dict(name=""), dict(seqid="s1"), dict(attrs="")):
+                        if a is None and b is None and not f and p:
+                            continue
+                        q = dict(allq, start=a, stop=b, partial=p)
+                        q.update(f)
+                        out.append(dict(kind=src["kind"], ops=src["ops"] + [dict(op="subset", query=q)], queries=after, block="subset"))
+    return out
+
+
 def _twotable(gff_feats, adds, qs):
     return [dict(kind="gff", ops=[dict(op="gff", features=gff_feats)], queries=qs, block="twotable"),
             dict(kind="gff", ops=[dict(op="gff", features=gff_feats)] + adds, queries=qs, block="twotable"),
@@ -920,7 +942,7 @@ def run(tier: str, seed: int) -> int:
     ncases = 150 if tier == "quick" else 8000
     if proof_broken:
         ncases *= 4  # widened search
-    cases = [lattice_case("basic"), lattice_case("gff"), lattice_case("gb")] + twotable_cases()
+    cases = [lattice_case("basic"), lattice_case("gff"), lattice_case("gb")] + twotable_cases() + subset_cases()
     cases += [random_case(rng) for _ in range(ncases)]
     rng_g = random.Random(seed * 7919 + 18)
     gcases = [GB_PROBE] + gb_exhaustive_cases() + [gb_random_case(rng_g) for _ in range((60 if tier == "quick" else 5000) * (4 if proof_broken else 1))]
@@ -967,7 +989,9 @@ def run(tier: str, seed: int) -> int:
         rule="one evaluation = one query on one database history, or one load of one GFF text with one lines_per_block; "
              "non-trivial = coordinate-window query returning >=1 record, or a GFF load in which rows without ID= sit in more than "
              "one block; lattice block: all features/windows with coordinates in -1..7 x partial x bound presence, exhaustive; "
-             "two-table block: on_alignment x user rows present/absent x start/stop in {None,0,k} x falsy filters x both entry points; "
+             "two-table block: on_alignment x user rows present/absent x start/stop in {None,0,k} x falsy filters x both entry points "
+             "(+ count_distinct over all 27 argument shapes); subset block: subset(start/stop in {None,0,k} x allow_partial x falsy "
+             "filters) on a two-table and a one-table db; "
              "random block: random multi-span records on 3 seqids, shared names, %/_ patterns, histories of "
              "add/union/update/subset/copy; gffblocks: every 4-row file over {ID=a, ID=b, no ID} (+comment line) and random GFF "
              "texts, each loaded with lines_per_block in {1,2,3,5,len-1,len,default,None}",
